@@ -99,20 +99,22 @@ class Geometry:
         n = perp_to(d, e["id"])
         mid = vmul(vadd(p1, p2), 0.5)
         kind = e["kind"]
+        # every data id gets its own geometry so that the written data identifies the user's edge uniquely
+        uniq = 1.0 + 0.037 * (e["id"] % 29)
         if kind == "arc":
             if e["degenerate"]:
                 return {"point": vadd(p1, vmul(d, 0.3))}
-            return {"point": vadd(mid, vmul(n, 0.2 * length))}
+            return {"point": vadd(mid, vmul(n, 0.2 * length * uniq))}
         if kind == "origin":
-            origin = vsub(mid, vmul(n, 0.9 * length))
+            origin = vsub(mid, vmul(n, 0.9 * length * uniq))
             return {"origin": origin, "third": origin_third_point(p1, p2, origin)}
         if kind == "angle":
-            theta = [0.7, 1.1, 1.9][e["id"] % 3]
+            theta = [0.7, 1.1, 1.9][e["id"] % 3] * (1 + 0.01 * (e["id"] % 29))
             axis = vmul(n, 2.5)  # non-unit on purpose
             return {"angle": theta, "axis": axis, "third_fwd": angle_third_point(p1, p2, theta, axis),
                     "third_rev": angle_third_point(p2, p1, theta, axis)}
         if kind in ("spline", "polyLine"):
-            pts = [vadd(vadd(p1, vmul(d, t)), vmul(n, h * length)) for t, h in ((0.2, 0.10), (0.45, 0.22), (0.8, 0.07))]
+            pts = [vadd(vadd(p1, vmul(d, t)), vmul(n, h * length * uniq)) for t, h in ((0.2, 0.10), (0.45, 0.22), (0.8, 0.07))]
             return {"points": pts}
         if kind == "project":
             return {"labels": e["labels"]}
